@@ -107,18 +107,109 @@ fn main() {
 '''
 
 
+FUTEX_NR = 202          # x86_64
+_CLK = os.sysconf("SC_CLK_TCK")
+
+
+def _thread_states(pid):
+    """[(tid, in_endless_futex_wait, schedstat)] for every thread of pid, or None when it is gone"""
+    out = []
+    try:
+        tids = os.listdir("/proc/%d/task" % pid)
+    except OSError:
+        return None
+    for tid in tids:
+        try:
+            sc = open("/proc/%d/task/%s/syscall" % (pid, tid)).read().split()
+            st = open("/proc/%d/task/%s/stat" % (pid, tid)).read().rsplit(")", 1)[1].split()
+            # on-CPU nanoseconds and number of timeslices: unchanged between two samples = the thread never ran in between
+            ticks = open("/proc/%d/task/%s/schedstat" % (pid, tid)).read().strip()
+        except OSError:
+            return None
+        endless = False
+        if sc and sc[0] == str(FUTEX_NR) and len(sc) >= 5 and st[0] == "S":
+            op = int(sc[2], 16) & 0x7f
+            # FUTEX_WAIT (0) / FUTEX_WAIT_BITSET (9) with a null timeout: only another thread's FUTEX_WAKE ends it
+            endless = op in (0, 9) and int(sc[4], 16) == 0
+        out.append((tid, endless, ticks))
+    return out
+
+
+def watched_run(argv, input_bytes=b"", wall_s=600, cwd=None, preexec_fn=None, env=None):
+    """Runs a driver process to completion under two monitors. (1) deadlock: every thread of the process sits in a
+    futex wait without timeout and no thread was scheduled at all (schedstat unchanged) across 4 consecutive samples
+    0.5 s apart - no thread is left that could issue the wake (the drivers share no memory with other processes and arm no timers), so the state is
+    permanent: a decided verdict, not a timing guess. (2) the wall-clock watchdog, whose firing only ever means
+    `timed_out` (inconclusive). Returns exit / signal / CPU (os.wait4 of this child) and the captured streams."""
+    import tempfile
+    t0 = time.time()
+    with tempfile.TemporaryFile() as fin, tempfile.TemporaryFile() as fout, tempfile.TemporaryFile() as ferr:
+        fin.write(input_bytes)
+        fin.flush()
+        fin.seek(0)
+        p = subprocess.Popen(argv, stdin=fin, stdout=fout, stderr=ferr, preexec_fn=preexec_fn, cwd=cwd, env=env)
+        timed_out = deadlock = False
+        streak, last, nthreads = 0, None, 0
+        next_sample = t0 + 1.0
+        while True:
+            pid, status, ru = os.wait4(p.pid, os.WNOHANG)
+            if pid:
+                break
+            now = time.time()
+            if now - t0 > wall_s:
+                timed_out = True
+                p.kill()
+                _, status, ru = os.wait4(p.pid, 0)
+                break
+            if now >= next_sample:
+                next_sample = now + 0.5
+                ts = _thread_states(p.pid)
+                if ts and all(e for _, e, _ in ts):
+                    sig = tuple(sorted((t, c) for t, _, c in ts))
+                    streak = streak + 1 if sig == last else 1
+                    last = sig
+                    nthreads = len(ts)
+                    if streak >= 4:
+                        deadlock = True
+                        p.kill()
+                        _, status, ru = os.wait4(p.pid, 0)
+                        break
+                else:
+                    streak, last = 0, None
+            time.sleep(0.02 if now - t0 < 2 else 0.1)
+        p.returncode = 0  # reaped by us
+        wall = time.time() - t0
+        fout.seek(0)
+        ferr.seek(0)
+        out, err = fout.read(), ferr.read()
+    sig = os.WTERMSIG(status) if os.WIFSIGNALED(status) else None
+    code = os.WEXITSTATUS(status) if os.WIFEXITED(status) else None
+    return {"exit": code, "signal": sig, "wall_s": round(wall, 3), "cpu_s": round(ru.ru_utime + ru.ru_stime, 3), "max_rss_kb": ru.ru_maxrss,
+            "timed_out": timed_out, "deadlock": deadlock, "deadlock_threads": nthreads if deadlock else 0, "stdout": out, "stderr_bytes": err}
+
+
 def run_gendrv(requests, timeout=600, cwd=None):
     """engine A: batch of requests through one `gendrv serve` process -> list of responses (same order)"""
     exe = build.bin_path("gendrv")
     inp = "".join(json.dumps(r) + "\n" for r in requests)
-    p = subprocess.run([exe, "serve"], input=inp, capture_output=True, text=True, timeout=timeout, cwd=cwd)
+    r = watched_run([exe, "serve"], inp.encode(), wall_s=timeout, cwd=cwd)
     out = []
-    for line in p.stdout.splitlines():
-        out.append(json.loads(line))
+    for line in r["stdout"].decode("utf-8", "replace").splitlines():
+        try:
+            out.append(json.loads(line))
+        except ValueError:
+            break
     if len(out) != len(requests):
-        # the driver died (abort / stack overflow) at request len(out): report, then continue after it
+        # the driver died (abort / stack overflow) or deadlocked at request len(out): report, then continue after it
         died_at = len(out)
-        out.append({"id": requests[died_at].get("id"), "outcome": "crash", "message": "gendrv exited with %s: %s" % (p.returncode, p.stderr[-300:])})
+        if r["deadlock"]:
+            out.append({"id": requests[died_at].get("id"), "outcome": "deadlock",
+                        "message": "gendrv deadlocked: all %d thread(s) in a futex wait without timeout, none scheduled for 2 s" % r["deadlock_threads"]})
+        elif r["timed_out"]:
+            raise subprocess.TimeoutExpired([exe, "serve"], timeout)
+        else:
+            out.append({"id": requests[died_at].get("id"), "outcome": "crash",
+                        "message": "gendrv exited with %s: %s" % (r["exit"] if r["signal"] is None else -r["signal"], r["stderr_bytes"].decode("utf-8", "replace")[-300:])})
         if died_at + 1 < len(requests):
             out += run_gendrv(requests[died_at + 1:], timeout, cwd)
     return out
@@ -148,46 +239,29 @@ def _limits(cpu_s, as_bytes):
 
 
 def run_gendrv_one(request, cpu_s=60, as_bytes=4 << 30, wall_s=120, mode="one", cwd=None):
-    """one request in a fresh process, nothing caught: exit status / signal / CPU time of THIS child
-    (os.wait4) are the observation; the wall-clock watchdog only ever yields `timed_out`"""
-    import tempfile
-    import threading
+    """one request (mode `one`, nothing caught) or a list of requests (mode `serve`, panics caught as rustc does
+    for proc macros) in a fresh process: exit status / signal / CPU time of THIS child (os.wait4) and the deadlock
+    monitor of watched_run are the observation; the wall-clock watchdog only ever yields `timed_out`"""
     exe = build.bin_path("gendrv")
-    t0 = time.time()
-    with tempfile.TemporaryFile() as fin, tempfile.TemporaryFile() as fout, tempfile.TemporaryFile() as ferr:
-        fin.write(json.dumps(request).encode())
-        fin.flush()
-        fin.seek(0)
-        p = subprocess.Popen([exe, mode], stdin=fin, stdout=fout, stderr=ferr, preexec_fn=_limits(cpu_s, as_bytes), cwd=cwd)
-        timed_out = []
-
-        def kill():
-            timed_out.append(True)
-            try:
-                p.kill()
-            except OSError:
-                pass
-        timer = threading.Timer(wall_s, kill)
-        timer.start()
-        try:
-            _, status, ru = os.wait4(p.pid, 0)
-        finally:
-            timer.cancel()
-        p.returncode = 0  # reaped by us
-        wall = time.time() - t0
-        fout.seek(0)
-        ferr.seek(0)
-        out = fout.read()
-        err = ferr.read()
-    sig = os.WTERMSIG(status) if os.WIFSIGNALED(status) else None
-    code = os.WEXITSTATUS(status) if os.WIFEXITED(status) else None
-    res = {"exit": code, "signal": sig, "wall_s": round(wall, 3), "cpu_s": round(ru.ru_utime + ru.ru_stime, 3), "max_rss_kb": ru.ru_maxrss,
-           "timed_out": bool(timed_out), "stderr": err.decode("utf-8", "replace")[-600:], "panic_message": b"panicked at" in err,
-           "stderr_head": err.decode("utf-8", "replace")[:300]}
+    if isinstance(request, list):
+        data = "".join(json.dumps(r) + "\n" for r in request).encode()
+    else:
+        data = json.dumps(request).encode()
+    res = watched_run([exe, mode], data, wall_s=wall_s, cwd=cwd, preexec_fn=_limits(cpu_s, as_bytes))
+    out, err = res.pop("stdout"), res.pop("stderr_bytes")
+    res.update({"stderr": err.decode("utf-8", "replace")[-600:], "panic_message": b"panicked at" in err, "stderr_head": err.decode("utf-8", "replace")[:300]})
+    lines = out.decode("utf-8", "replace").splitlines()
     try:
-        res["response"] = json.loads(out.decode("utf-8", "replace").splitlines()[0]) if out.strip() else None
+        res["response"] = json.loads(lines[0]) if lines else None
     except ValueError:
         res["response"] = None
+    if isinstance(request, list):
+        res["responses"] = []
+        for l in lines:
+            try:
+                res["responses"].append(json.loads(l))
+            except ValueError:
+                break
     return res
 
 
